@@ -55,6 +55,9 @@ BAG_SETTINGS = {"S0": {"mfp": 50.0, "thickness": 5.0}, "S1": {"mfp": 20.0, "thic
 SETUP_CFG = {"phaseTracerTol": 1e-8}
 COLLISION = {"N": 7, "gamma": 0.5, "mix": -0.1}
 
+PROGRAMMING_ERRORS = frozenset({"TypeError", "AttributeError", "IndexError", "KeyError",
+                                "NameError", "UnboundLocalError", "ZeroDivisionError",
+                                "RecursionError", "AssertionError"})
 _REF_CACHE: dict = {}
 _REF_NEW: dict = {}
 _TRACE: dict = {"active": None}
@@ -278,7 +281,8 @@ class ManagerMachine(Machine):
         c.configEOM.maxIterations = cfg["maxIterations"]
         c.configEOM.pressRelErrTol = cfg["pressRelErrTol"]
         c.configEOM.conserveEnergyMomentum = cfg["conserve"]
-        c.configEOM.wallThicknessBounds = tuple(cfg["thicknessBounds"])
+        # a list, like the default and like Config.loadConfigFromFile leaves it
+        c.configEOM.wallThicknessBounds = [float(b) for b in cfg["thicknessBounds"]]
         c.configBoltzmannSolver.collisionMultiplier = cfg["collisionMultiplier"]
 
     def _freshManager(self, setupCfg: dict, variant: str, collKind: str | None) -> tuple:
@@ -931,6 +935,14 @@ class ManagerMachine(Machine):
                     f"with {rec['outcome']} instead of CollisionLoadError: {rec['error']}")
             self.faultSeen = True
         self.ctx.checks[f"{op}_vs_fresh"] += 1
+        for who, r in (("history", rec), ("reference", ref)):
+            if r["outcome"] in PROGRAMMING_ERRORS:
+                # neither a result nor one of the documented failure channels
+                raise Violation(
+                    "unexpected-exception", f"{op}:{r['outcome']}",
+                    f"{who}: {op} on a validly set-up manager raised {r['outcome']}: "
+                    f"{r['error']}")
+        self.ctx.probes[f"outcome:{op}:{rec['outcome']}"] += 1
         if rec["outcome"] != ref["outcome"] or rec["digest"] != ref["digest"]:
             self._confirmAndRaise(op, step, rec, ref)
         self.ctx.probes["history_vs_fresh_equal"] += 1
